@@ -8,9 +8,11 @@ if [ "$1" = "-R" ]; then
   git -C /repo apply -R /tmp/mutest.$$.diff || { echo "cannot apply reverse"; exit 3; }
   rm -f /tmp/mutest.$$.diff
 else
-  git -C /repo apply "$(realpath "$1")" || { echo "cannot apply $1"; exit 3; }; shift
+  PATCH="$(realpath "$1")"
+  git -C /repo apply "$PATCH" || { echo "cannot apply $1"; exit 3; }; shift
 fi
-trap 'git -C /repo checkout -- . ; git -C /repo status --short | head -3' EXIT
+# reverse application also removes files the patch added; checkout restores the rest
+trap '[ -n "${PATCH:-}" ] && git -C /repo apply -R "$PATCH" 2>/dev/null; git -C /repo checkout -- . ; git -C /repo status --short | head -3' EXIT
 for p in "$@"; do
   start=$(date +%s)
   ./check "$p" > /tmp/mutest.out 2>&1; rc=$?
